@@ -1153,7 +1153,18 @@ impl TransportManager {
                     match command {
                         InnerTransportManagerCommand::DialPeer { peer } => {
                             if let Err(error) = self.dial(peer).await {
-                                tracing::debug!(target: LOG_TARGET, ?peer, ?error, "failed to dial peer")
+                                tracing::debug!(target: LOG_TARGET, ?peer, ?error, "failed to dial peer");
+
+                                // The protocol was told that dialing started (its handle accepted the
+                                // request), so it has to be told that nothing will come out of it.
+                                if !std::matches!(error, Error::AlreadyConnected) {
+                                    for context in self.protocols.values() {
+                                        let _ = context.tx.try_send(InnerTransportEvent::DialFailure {
+                                            peer,
+                                            addresses: Vec::new(),
+                                        });
+                                    }
+                                }
                             }
                         }
                         InnerTransportManagerCommand::DialAddress { address } => {
